@@ -457,6 +457,8 @@ def run(ctx):
                          [ref[a] for a in args])
     two_operations(ctx)
     multi_part_replies(ctx)
+    cold_first_calls(ctx)
+    clone_with_helper_transport(ctx)
     mixed_style_port(ctx)
     header_entries_from_plugins(ctx)
     encoded_arrays_next_to_string_replies(ctx)
@@ -604,6 +606,99 @@ def multi_part_replies(ctx):
                     ctx.fail("a call failed or decoded its reply by another call's part types because that call was in "
                              "progress", meta, [errs, got], [want[first], want[second]])
                     return
+
+
+def cold_first_calls(ctx):
+    """Two threads make the FIRST calls of a freshly built client at the same time (nothing of its schema has been
+    walked yet): both get the results the calls give one after the other."""
+    schema = ('<xsd:complexType name="Person"><xsd:sequence><xsd:element name="name" type="xsd:string"/><xsd:element '
+              'name="age" type="xsd:int"/><xsd:element name="tags" type="xsd:string" minOccurs="0" maxOccurs="unbounded"/>'
+              '</xsd:sequence><xsd:attribute name="id" type="xsd:string"/></xsd:complexType>'
+              '<xsd:element name="f"><xsd:complexType><xsd:sequence><xsd:element name="p" type="x:Person"/></xsd:sequence>'
+              '</xsd:complexType></xsd:element><xsd:element name="fResponse"><xsd:complexType><xsd:sequence>'
+              '<xsd:element name="r" type="x:Person"/></xsd:sequence></xsd:complexType></xsd:element>')
+    w = wsdlkit.wsdl_doc(schema, "f", "fResponse")
+
+    def reply(request):
+        import re
+        m = re.search(rb"<(?:\w+:)?name[^>]*>([^<]*)</", request.message)
+        n = m.group(1).decode() if m else "?"
+        return ('<e:Envelope xmlns:e="%s"><e:Body><fResponse xmlns="%s"><r id="i-%s"><name>echo-%s</name><age>%d</age>'
+                '<tags>t</tags></r></fResponse></e:Body></e:Envelope>' % (xmlread.ENV11, wsdlkit.TNS, n, n, len(n))).encode()
+
+    def fresh():
+        return wsdlkit.client(w, transport=wsdlkit.RecordingTransport(reply=reply))
+
+    def op(c, n):
+        def fn():
+            r = c.service.f({"name": n, "age": len(n), "tags": ["a", "b"], "_id": "x"})
+            return [str(r.name), r.age, [str(t) for t in r.tags], str(r._id)]
+        return fn
+    want = {n: ["echo-" + n, len(n), ["t"], "i-" + n] for n in ("AAAA", "BB")}
+    c0 = fresh()
+    seq = {n: op(c0, n)() for n in ("AAAA", "BB")}
+    ctx.case(("cold-first-calls", "sequential"), True)
+    if seq != want:
+        ctx.fail("a call failed because another was in progress", {"scenario": "cold-first-calls/sequential"}, seq, want)
+        return
+    c1 = fresh()
+    res, total, errs = run_schedule([op(c1, "AAAA"), op(c1, "BB")], {})
+    n_pts = ctx.pick(60, 600)
+    pts = sorted(set(int(1 + i * (total / 2 - 1) / float(n_pts)) for i in range(n_pts + 1)))
+    for k in pts:
+        c = fresh()
+        res, nev, errs = run_schedule([op(c, "AAAA"), op(c, "BB")], {k: 1})
+        meta = {"scenario": "cold-first-calls", "preempt_after_event": k}
+        ctx.case(common.canon(meta), True)
+        ctx.dist["schedule:cold-first-calls"] += 1
+        got = [r[1] if r and r[0] == "ok" else r for r in res]
+        if errs or got != [want["AAAA"], want["BB"]]:
+            ctx.fail("a call failed because another was in progress", meta, [errs, got], [want["AAAA"], want["BB"]])
+            return
+
+
+def clone_with_helper_transport(ctx):
+    """A caller-written transport that keeps a helper object pointing back at it: the clone's transport is ONE
+    consistent copy (its helper points at the copy), so a transport option set on the clone is what the clone's
+    requests are sent under."""
+    import suds.transport
+
+    class Helper:
+        def __init__(self, owner):
+            self.owner = owner
+
+        def credentials(self):
+            return [self.owner.options.username, self.owner.options.password, self.owner.options.timeout]
+
+    class Mine(suds.transport.Transport):
+        def __init__(self):
+            suds.transport.Transport.__init__(self)
+            self.helper = Helper(self)
+            self.sent = []
+
+        def open(self, request):
+            raise suds.transport.TransportError("no documents here", 404)
+
+        def send(self, request):
+            self.sent.append(self.helper.credentials())
+            return suds.transport.Reply(200, {}, echo_reply("document")(request))
+    client, _tr = make_client("document")
+    client.set_options(transport=Mine())
+    client.set_options(username="orig", password="po", timeout=11)
+    ctx.case(("clone-helper-transport",), True)
+    try:
+        k = client.clone()
+        k.set_options(username="clone", password="pc", timeout=22)
+        k.service.f("x")
+        client.service.f("y")
+        kt, ct = k.options.transport, client.options.transport
+        got = [kt.sent, ct.sent, kt.helper.owner is kt, ct.helper.owner is ct, kt is not ct]
+    except Exception as e:
+        got = "%s: %s" % (type(e).__name__, e)
+    want = [[["clone", "pc", 22]], [["orig", "po", 11]], True, True, True]
+    if got != want:
+        ctx.fail("a clone's invocation does not run under the clone's own options (or the parent's changed)",
+                 {"scenario": "clone-helper-transport"}, got, want)
 
 
 def header_entries_from_plugins(ctx):
